@@ -567,6 +567,38 @@ theorem block_object_dohash_false_same_weight (H : Bytes → Bytes) (raw : Bytes
     ∀ t ∈ (decodeBlockExt H false raw).txs, t.ids.hash = List.replicate 32 0 :=
   decodeBlockExt_false H raw
 
+/-- **compactsize_accept_iff.** In ALL FOUR CompactSize ranges (1, 3, 5 and 9 bytes — any value below 2^64) the strict
+    reader `btc.vlenWire` accepts a byte string exactly when it starts with what the writer (`WriteVlen` / `PutULe`,
+    model `putULe`) writes for that value and at least that many bytes follow; it then returns that value and the bytes
+    after the prefix. Reader and writer agree on where the ranges begin (0xfd, 2^16, 2^32) and on every byte of the
+    prefix — the statement the direct sweep of `WriteVlen`/`PutULe`/`VLenSize`/`VULe` in the harness (all four ranges) and
+    the transactions with one length field at 252..253 / 65535..65537 / inside the 5-byte range tie to the code. -/
+theorem compactsize_accept_iff (b r : Bytes) (v : Nat) :
+    vlenWire b = some (v, r) ↔ (b = putULe v ++ r ∧ v ≤ r.length ∧ v < 2^64) := by
+  constructor
+  · exact vlenWire_spec
+  · rintro ⟨rfl, hb, hv⟩
+    exact vlenWire_putULe v r hv hb
+
+/-- the writer at the first value of each range and the last value of the previous one -/
+example : putULe 252 = [0xfc] ∧ putULe 253 = [0xfd, 0xfd, 0x00] ∧ putULe 65535 = [0xfd, 0xff, 0xff] ∧
+    putULe 65536 = [0xfe, 0x00, 0x00, 0x01, 0x00] ∧ putULe 0x12345678 = [0xfe, 0x78, 0x56, 0x34, 0x12] ∧
+    putULe (2^32 - 1) = [0xfe, 0xff, 0xff, 0xff, 0xff] ∧ putULe (2^32) = [0xff, 0, 0, 0, 0, 1, 0, 0, 0] ∧
+    putULe (2^64 - 1) = [0xff, 0xff, 0xff, 0xff, 0xff, 0xff, 0xff, 0xff, 0xff] := by decide
+
+/-- **compactsize_sizes.** The writer's output has exactly `VLenSize` bytes — 1, 3, 5 or 9 by range — and the lax reader
+    `VULe` gives back value and size on it, whatever follows (values below 2^64). -/
+theorem compactsize_sizes (v : Nat) (hv : v < 2^64) (rest : Bytes) :
+    (putULe v).length = vlenSize v ∧ vule (putULe v ++ rest) = (v, vlenSize v) ∧
+    (vlenSize v = 1 ↔ v < 0xfd) ∧ (vlenSize v = 3 ↔ 0xfd ≤ v ∧ v < 2^16) ∧
+    (vlenSize v = 5 ↔ 2^16 ≤ v ∧ v < 2^32) ∧ (vlenSize v = 9 ↔ 2^32 ≤ v) := by
+  refine ⟨putULe_length v, vule_putULe v hv rest, ?_, ?_, ?_, ?_⟩ <;>
+  · unfold vlenSize
+    repeat' split
+    all_goals omega
+
+example : ∃ v : Nat, v < 2^64 ∧ vlenSize v = 5 := ⟨65536, by decide, by decide⟩
+
 -- OPEN: alloc_bounded_runtime — the bound is about the bytes REQUESTED (`Wire.allocTx`, proved above for every input);
 --   what the Go runtime adds (size-class rounding ≤ 2×, the panic value of a failed slice expression, `println`) is
 --   not modelled: the harness checks `allocTx ≤ measured ≤ 2·allocTx + 2048` (runtime.MemStats) on every exactly
